@@ -4,6 +4,9 @@
 // simulator's scheduler switch points inside a node's Go code.
 package verifyield
 
+// Instrumented is set (by a generated file) in builds whose library sources were rewritten.
+var Instrumented bool
+
 // Hook is installed by the simulator; nil means "not simulating".
 var Hook func(site int)
 
@@ -23,4 +26,53 @@ func Locked(delta int) {
 	if h := LockHook; h != nil {
 		h(delta)
 	}
+}
+
+// --- goroutines and blocking operations of the library (instrumented build only) ---
+
+// GoHook is installed by the simulator. It returns true when the simulator has taken the
+// function over as a task of its scheduler.
+var GoHook func(fn func()) bool
+
+// Go replaces the go statement in instrumented sources.
+func Go(fn func()) {
+	if h := GoHook; h != nil && h(fn) {
+		return
+	}
+	go fn()
+}
+
+// BlockHook / UnblockHook are installed by the simulator.
+var (
+	BlockHook   func() any
+	UnblockHook func(tok any)
+	WrapHook    func(fn func()) func()
+)
+
+// Blocking precedes an operation that may block outside the scheduler's control (channel
+// operation, select, WaitGroup.Wait, time.Sleep). The token identifies the task.
+func Blocking() any {
+	if h := BlockHook; h != nil {
+		return h()
+	}
+	return nil
+}
+
+// Unblocked follows the operation: the task waits here until the scheduler picks it again.
+func Unblocked(tok any) {
+	if tok == nil {
+		return
+	}
+	if h := UnblockHook; h != nil {
+		h(tok)
+	}
+}
+
+// Wrap makes a function that a timer will run in a goroutine of its own (time.AfterFunc) a
+// task of the scheduler.
+func Wrap(fn func()) func() {
+	if h := WrapHook; h != nil {
+		return h(fn)
+	}
+	return fn
 }
